@@ -829,10 +829,18 @@ func (c *Cursor) Get() (interface{}, interface{}, bool) {
 }
 
 // Forward moves the cursor to the entry with the next-larger key.
-func (c *Cursor) Forward(ctx context.Context) error {
+func (c *Cursor) Forward(ctx context.Context) (err error) {
 	if len(c.path) == 0 {
 		return nil
 	}
+	// a failed move (a node could not be loaded part-way down) leaves the
+	// cursor where it was, so that the move can be retried
+	saved := append([]pathEntry(nil), c.path...)
+	defer func() {
+		if err != nil {
+			c.path = saved
+		}
+	}()
 	pe := &c.path[len(c.path)-1]
 	node := pe.node
 	if pe.linkIndex+1 < len(node.Link) && node.Link[pe.linkIndex+1] != nil {
@@ -862,10 +870,16 @@ func (c *Cursor) Forward(ctx context.Context) error {
 }
 
 // Backward moves the cursor to the entry with th enext-smaller key.
-func (c *Cursor) Backward(ctx context.Context) error {
+func (c *Cursor) Backward(ctx context.Context) (err error) {
 	if len(c.path) == 0 {
 		return nil
 	}
+	saved := append([]pathEntry(nil), c.path...)
+	defer func() {
+		if err != nil {
+			c.path = saved
+		}
+	}()
 	pe := &c.path[len(c.path)-1]
 	node := pe.node
 	if node.Link[pe.linkIndex] != nil {
